@@ -116,6 +116,10 @@ def unOp (op : String) (v : Num) : Option Num :=
   | "log", .dual d => some (.dual d.log) | "log", .dual2 d => some (.dual2 d.log)
   | "ncdf", .dual d => some (.dual d.normCdf) | "ncdf", .dual2 d => some (.dual2 d.normCdf)
   | "nicdf", .dual d => some (.dual d.invNormCdf) | "nicdf", .dual2 d => some (.dual2 d.invNormCdf)
+  | "nsignum", .dual d => some (.dual d.signum) | "nsignum", .dual2 d => some (.dual2 d.signum)
+  | "nneg", .dual d => some (.dual d.neg) | "nneg", .dual2 d => some (.dual2 d.neg)
+  | "nnegref", .dual d => some (.dual d.negRef) | "nnegref", .dual2 d => some (.dual2 d.negRef)
+  | "nneg", .f64 x => some (.f64 (-x)) | "nnegref", .f64 x => some (.f64 (-x))
   | "neg", .f64 x => some (.f64 (-x))
   | "negref", .f64 x => some (.f64 (-x))
   | "abs", .f64 x => some (.f64 x.abs)
@@ -251,6 +255,15 @@ def dualStep' (st : DualState) (toks : List String) : Option (DualState × Strin
     let a ← st.vals.get? (← i.toNat?)
     let v ← unOp op a
     pure (st, fmtNum v)
+  | ["npowc", i, p] => do
+    let a ← st.vals.get? (← i.toNat?); let p ← parseF? p
+    pure (st, fmtNum (powNum a p))
+  | ["sign", i] => do
+    -- the sign BIT of the value (so that -0.0 is negative), as `f64::is_sign_positive` / `is_sign_negative`
+    let a ← st.vals.get? (← i.toNat?)
+    let x := a.toF64
+    let neg : Bool := x < 0.0 || (x == 0.0 && 1.0 / x < 0.0)
+    pure (st, s!"{if neg then 0 else 1} {if neg then 1 else 0}")
   | ["neut", which, i] => do
     -- zero + x, x + zero, one * x, x * one with the type's own zero / one (a constant without variables),
     -- typed or through the Number container (whose zero / one are the floats 0 and 1)
